@@ -2,11 +2,11 @@ package main
 
 import (
 	"bytes"
-	"os"
 	"encoding/base64"
 	"encoding/json"
 	"fmt"
 	"math/rand"
+	"os"
 	"strings"
 
 	"verif/core"
